@@ -1323,7 +1323,7 @@ public:
         free[numFree++] = i;
       else
       {
-        if (matches[i] == 1)   // transfer reduction from rows that are assigned once.
+        if (matches[i] == 1 && dim > 1)   // transfer reduction from rows that are assigned once (needs another column).
         {
           j1 = static_cast<size_t>(rowSol[i]); // rowSol[i] is >= 0 here
           min = -std::log(0);
